@@ -457,10 +457,11 @@ class digest(FieldType):
             self.__md5 = self.__md5_bin = None
             return
         try:
-            self.__md5_bin = a2b_hex(val)
-            self.__md5 = val
-            if len(self.__md5_bin) != 16:
+            val_bin = a2b_hex(val)
+            if len(val_bin) != 16:
                 raise TypeError("Incorrect hash length")
+            self.__md5_bin = val_bin
+            self.__md5 = val
         except binascii.Error as e:
             raise TypeError("Invalid MD5 value {!r}, {}".format(val, e))
 
@@ -470,10 +471,11 @@ class digest(FieldType):
             self.__sha1 = self.__sha1_bin = None
             return
         try:
-            self.__sha1_bin = a2b_hex(val)
-            self.__sha1 = val
-            if len(self.__sha1_bin) != 20:
+            val_bin = a2b_hex(val)
+            if len(val_bin) != 20:
                 raise TypeError("Incorrect hash length")
+            self.__sha1_bin = val_bin
+            self.__sha1 = val
         except binascii.Error as e:
             raise TypeError("Invalid SHA-1 value {!r}, {}".format(val, e))
 
@@ -483,10 +485,11 @@ class digest(FieldType):
             self.__sha256 = self.__sha256_bin = None
             return
         try:
-            self.__sha256_bin = a2b_hex(val)
-            self.__sha256 = val
-            if len(self.__sha256_bin) != 32:
+            val_bin = a2b_hex(val)
+            if len(val_bin) != 32:
                 raise TypeError("Incorrect hash length")
+            self.__sha256_bin = val_bin
+            self.__sha256 = val
         except binascii.Error as e:
             raise TypeError("Invalid SHA-256 value {!r}, {}".format(val, e))
 
